@@ -172,6 +172,11 @@ class RefRun:
         args = [self.env[a] for a in st["args"]]
         res = od.ref(args, st.get("p", {}))
         res = np.asarray(res)
+        if od.view and not st["op"].startswith("atleast_") and any(res is a for a in args):
+            # NumPy handed back the operand itself (np.squeeze with nothing to squeeze); a Tensor result is
+            # always a distinct object, so model it as a distinct view.  (mg.atleast_kd documents
+            # returning the very same tensor, like NumPy, and is kept as an alias.)
+            res = res.view()
         h = st["h"]
         explicit = st.get("constant")
         allconst = all(self.const[a] for a in st["args"])
@@ -181,6 +186,8 @@ class RefRun:
             const = True
         self.is_tensor[h] = True
         # view?
+        if not od.view and res.size > 0 and any(np.shares_memory(res, self.env[a]) for a in st["args"]):
+            res = res.copy()  # non-view ops never alias their inputs (NumPy returns scalars/new arrays)
         parent = None
         if od.view and res.size > 0:
             for a in st["args"]:
@@ -229,15 +236,24 @@ class RefRun:
             else:
                 tgt[...] = res
         elif kind == "shape":
+            if tuple(p["shape"]) == tgt.shape:
+                return  # assigning the current shape is a no-op
             new = tgt.reshape(tuple(p["shape"]))
+            aliases_owner = tgt is self.env.get(o)
             if tgt.size and not np.shares_memory(new, tgt):
                 raise ValueError("incompatible shape for in-place modification")
-            self.env[t] = new
-            self.imap[t] = self.imap[t].reshape(tuple(p["shape"]))
-            self.last_write[o] = self.last_write[o]
-            return
+            for h2 in list(self.env):
+                # handles that alias the very same array object (e.g. np.atleast_1d(a) is a)
+                if self.env[h2] is tgt:
+                    self.env[h2] = new
+                    self.imap[h2] = self.imap[h2].reshape(tuple(p["shape"]))
+            # functionally x' = reshape(x): later reads see a new version of the family; re-shaping a
+            # *view* leaves the owner (whose gradient defines the view's) untouched
+            if o != t and not aliases_owner:
+                return
         else:  # pragma: no cover
             raise HarnessError(kind)
+        tgt = self.env[t]
         self._track(tgt.real if self.cplx else tgt)
         # dependency / version bookkeeping
         old = (o, self.famver[o])
@@ -488,10 +504,14 @@ def compare_grads(exp, mgrun, handles=None, dtype=np.float64, check_values=True)
         eg = exp.grads.get(h)
         g = t.grad
         if eg is None:
+            if g is not None and t.size == 0:
+                continue  # empty tensors: NumPy reports no memory sharing, nothing to compare
             if g is not None:
                 return Mismatch("grad_not_none", f"h{h}: expected no gradient, got {np.asarray(g).tolist()!r}"[:300], h=h)
             continue
         if g is None:
+            if not np.any(eg):
+                continue  # reference gradient identically zero: None and zeros both mean "no contribution"
             return Mismatch("grad_none", f"h{h}: expected a gradient, got None", h=h)
         if g.shape != t.shape or g.shape != eg.shape:
             return Mismatch("grad_shape", f"h{h}: grad shape {g.shape}, tensor {t.shape}", h=h)
